@@ -256,6 +256,9 @@ async def exec_step(cl: Client, st: Dict[str, Any]):
                 r = await cl.api.__aexit__(None, None, None)
             op.extra["swallowed"] = bool(r)
             res = None
+        elif st.get("timeout"):
+            # the caller gives up on the operation (asyncio.wait_for cancels it)
+            res = await asyncio.wait_for(call_op(cl, kind, op.args), st["timeout"])
         else:
             res = await call_op(cl, kind, op.args)
         op.outcome = ("ok", summarize(res) if res != "unavailable" else "unavailable")
@@ -338,6 +341,7 @@ def run(scn: Dict[str, Any]) -> TcpRun:
             out.cap = str(e)
         # post-state observations needed by lifecycle oracles
         for cl in out.clients:
+            cl.final_units = [(c.cid, u.idx, u.acc, len(u.data), u.data) for c in cl.conns for u in c.units]
             cl.final_connected = bool(cl.api.connected)
             cl.final_socks = [(c.cid, c.sock.closed, c.client_fin) for c in cl.conns]
         out.digest = sim.digest()
